@@ -14,6 +14,7 @@ import (
 	"sort"
 	"strconv"
 	"strings"
+	"sync"
 	"time"
 
 	"golang.org/x/tools/go/ssa"
@@ -480,54 +481,96 @@ func runNative(overlay map[string][]byte, pkgs map[string]string, reports []*Har
 			nr.err = fmt.Sprintf("go test -c ./%s: %v\n%s", d, err, string(out))
 			return nr
 		}
-		outf := filepath.Join(tmp, "out_"+sanitize(d)+".jsonl")
-		skip := 0
-		for restarts := 0; restarts < 200; restarts++ {
-			run := exec.Command(bin, "-test.run", "^TestVerifReplay$", "-test.count=1", "-test.timeout=20m")
-			run.Dir = filepath.Join(repoDir, d)
-			run.Env = append(env, "VERIF_REPLAY="+jf, "VERIF_OUT="+outf, fmt.Sprintf("VERIF_SKIP=%d", skip))
-			o2, runErr := run.CombinedOutput()
-			ob, _ := os.ReadFile(outf)
-			done := 0
-			started := ""
-			for _, line := range strings.Split(string(ob), "\n") {
-				if strings.TrimSpace(line) == "" {
-					continue
+		// the witnesses are run in several processes side by side (each path's native run contains real
+		// waiting: quiescence pauses, time-outs), each process crash tolerant on its own shard
+		shards := 8
+		if len(jobs) < 64 {
+			shards = 1
+		}
+		type shardOut struct {
+			results map[string]*nativeRun
+			err     string
+		}
+		outs := make([]shardOut, shards)
+		var wg sync.WaitGroup
+		for sh := 0; sh < shards; sh++ {
+			var mine []witnessJob
+			for i, j := range jobs {
+				if i%shards == sh {
+					mine = append(mine, j)
 				}
-				var probe struct {
-					ID      string `json:"id"`
-					Started bool   `json:"started"`
-					Absent  bool   `json:"absent"`
-				}
-				if json.Unmarshal([]byte(line), &probe) != nil {
-					continue
-				}
-				switch {
-				case probe.Absent:
-					done++
-				case probe.Started:
-					started = probe.ID
-				default:
-					var r nativeRun
-					if json.Unmarshal([]byte(line), &r) == nil {
-						nr.results[r.ID] = &r
-						done++
-						started = ""
+			}
+			if len(mine) == 0 {
+				continue
+			}
+			wg.Add(1)
+			go func(sh int, mine []witnessJob) {
+				defer wg.Done()
+				res := map[string]*nativeRun{}
+				outs[sh].results = res
+				sjb, _ := json.Marshal(mine)
+				sjf := filepath.Join(tmp, fmt.Sprintf("jobs_%s_%d.json", sanitize(d), sh))
+				os.WriteFile(sjf, sjb, 0644)
+				outf := filepath.Join(tmp, fmt.Sprintf("out_%s_%d.jsonl", sanitize(d), sh))
+				skip := 0
+				for restarts := 0; restarts < 200; restarts++ {
+					run := exec.Command(bin, "-test.run", "^TestVerifReplay$", "-test.count=1", "-test.timeout=30m")
+					run.Dir = filepath.Join(repoDir, d)
+					run.Env = append(env, "VERIF_REPLAY="+sjf, "VERIF_OUT="+outf, fmt.Sprintf("VERIF_SKIP=%d", skip))
+					o2, runErr := run.CombinedOutput()
+					ob, _ := os.ReadFile(outf)
+					done := 0
+					started := ""
+					for _, line := range strings.Split(string(ob), "\n") {
+						if strings.TrimSpace(line) == "" {
+							continue
+						}
+						var probe struct {
+							ID      string `json:"id"`
+							Started bool   `json:"started"`
+							Absent  bool   `json:"absent"`
+						}
+						if json.Unmarshal([]byte(line), &probe) != nil {
+							continue
+						}
+						switch {
+						case probe.Absent:
+							done++
+						case probe.Started:
+							started = probe.ID
+						default:
+							var r nativeRun
+							if json.Unmarshal([]byte(line), &r) == nil {
+								res[r.ID] = &r
+								done++
+								started = ""
+							}
+						}
 					}
+					if runErr == nil || done >= len(mine) {
+						break
+					}
+					// the process died while running job `started`: that job crashed the process
+					if started == "" {
+						outs[sh].err = fmt.Sprintf("native run ./%s: %v\n%s", d, runErr, tail(string(o2), 1500))
+						return
+					}
+					res[started] = &nativeRun{ID: started, Panic: "process crashed: " + tail(string(o2), 300)}
+					done++
+					os.WriteFile(outf, append(ob, []byte(fmt.Sprintf("{\"id\":%q,\"panic\":\"process crashed\"}\n", started))...), 0644)
+					skip = done
 				}
-			}
-			if runErr == nil || done >= len(jobs) {
-				break
-			}
-			// the process died while running job `started`: that job crashed the process
-			if started == "" {
-				nr.err = fmt.Sprintf("native run ./%s: %v\n%s", d, runErr, tail(string(o2), 1500))
+			}(sh, mine)
+		}
+		wg.Wait()
+		for _, o := range outs {
+			if o.err != "" {
+				nr.err = o.err
 				return nr
 			}
-			nr.results[started] = &nativeRun{ID: started, Panic: "process crashed: " + tail(string(o2), 300)}
-			done++
-			os.WriteFile(outf, append(ob, []byte(fmt.Sprintf("{\"id\":%q,\"panic\":\"process crashed\"}\n", started))...), 0644)
-			skip = done
+			for k, v := range o.results {
+				nr.results[k] = v
+			}
 		}
 	}
 	// race violations: confirm with the runtime race detector (one -race binary per package); when the
